@@ -26,9 +26,9 @@ theorem crash_prefix (lines css : List (List Nat)) (k : Nat) :
       ∧ (frag = [] ∨ ∃ l, lines[a]? = some l ∧ ProperPrefix frag l) :=
   EJ.crash_prefix lines css k
 
--- killed inside the second write after 2 of its 4 bytes
-example : (crash 7 (logAll [[97, 10], [98, 99, 100, 10], [101, 10]] [[1], [2, 1]])).disk = [97, 10, 98, 99]
-    ∧ (crash 7 (logAll [[97, 10], [98, 99, 100, 10], [101, 10]] [[1], [2, 1]])).acked = 1 := by decide
+-- killed inside the second write after 2 of its 4 bytes (4 micro-steps of call 1, append, spill 2)
+example : (crash 6 (logAll [[97, 10], [98, 99, 100, 10], [101, 10]] [[1], [2, 1]])).disk = [97, 10, 98, 99]
+    ∧ (crash 6 (logAll [[97, 10], [98, 99, 100, 10], [101, 10]] [[1], [2, 1]])).acked = 1 := by decide
 
 /-- Every logging call that has returned is counted as acknowledged. -/
 theorem acked_after (lines css : List (List Nat)) (j k : Nat) (hj : j ≤ lines.length)
@@ -65,10 +65,10 @@ theorem crash_readable_file (mode : Mode) (ext : Bool) (msgs : List PyVal) (css 
     | cons m ms ih =>
       obtain ⟨ps, hps, hn⟩ := ih
       cases hl : (FileDest.mk mode ext).line m with
-      | none => exact ⟨ps, by simp [List.filterMap_cons, hl, hps], hn⟩
+      | none => exact ⟨ps, by simp [hl, hps], hn⟩
       | some l =>
         obtain ⟨body, hb, h10, _⟩ := line_shape _ m l hl
-        refine ⟨body :: ps, by simp [List.filterMap_cons, hl, hps, hb], ?_⟩
+        refine ⟨body :: ps, by simp [hl, hps, hb], ?_⟩
         intro p hp
         rcases List.mem_cons.mp hp with rfl | hp
         · exact h10
